@@ -179,6 +179,12 @@ func StepRef() {
 	verifrt.Assert(int(tok.Kind) == ref.Kind, "C03.kind")
 	verifrt.Assert(tok.Pos.Start-e.r0 == ref.StartC, "C03.start")
 	verifrt.Assert(tok.Pos.End-e.r0 == ref.EndC, "C03.end")
+	if extraQ {
+		// where the listed finding applies the comparison below fails and cuts the path: what the finding does
+		// not excuse - the character cursor keeping step with the byte cursor over the extra quotes - is
+		// asserted first (seeded change C04-6 hid behind the finding)
+		verifrt.Assert(endRunes-e.r0 == ref.EndC+(end-ref.EndB), "C04.cursor-chars-match-bytes")
+	}
 	verifrt.Known("KF-C03-block-string-extra-quotes", extraQ)
 	verifrt.Assert(end == ref.EndB && endRunes-e.r0 == ref.EndC, "C03.cursor-after-token")
 	if !ref.Surrogate {
